@@ -95,6 +95,30 @@ def run(rep):
                 rep.violation('%s(%s): verdict %s in one process history, %s in another (%s order)' % (pairs[i][0], pairs[i][1], x[0], y[0], label),
                               {'class': pairs[i][0], 'value': pairs[i][1], 'verdict_a': x, 'verdict_b': y, 'order': label})
                 break
+    # deep copies are other instances too: mutate the copy, observe the original, and the other way round (runner shared with C14)
+    import json as _json
+    from . import extract as _ex
+    parents = {}
+    for c in g['lib']['classes']:
+        if c['type'] in g['templates']:
+            parents.setdefault(c['type'], c['name'])
+    dc_cases = []
+    for t, root in sorted(parents.items())[:: 3 if quick else 1]:
+        ws = rx.words(rx.of_tree(g['templates'][t]), rx.alphabet(g['templates'][t]), 3, 6)
+        if ws:
+            dc_cases.append({'root': root, 'word': rng.choice(ws)})
+    r = subprocess.run([C.PY, '-W', 'ignore', os.path.join(C.VERIF, 'corr', 'c14_runner.py')], input=_json.dumps({'seed': rep.seed, 'cases': dc_cases}), capture_output=True,
+                       text=True, env=C.impl_env(), timeout=1800)
+    if r.returncode != 0:
+        raise RuntimeError('c14 runner failed: ' + r.stderr[-1000:])
+    n_dc = 0
+    for rec in _json.loads(r.stdout):
+        if 'independent' in rec:
+            n_dc += 1
+            if not rec['independent']:
+                rep.violation('an element and its deep copy are not isolated: mutating one changes the other (<%s>): %s' % (rec['case']['root'], rec['aliasing'][:3]),
+                              {'case': rec['case'], 'aliasing': rec['aliasing'], 'log': rec.get('log')})
+    rep.coverage['deep_copy_pairs'] = n_dc
     rep.coverage.update({'evaluations': len(multi) + 2 * len(cases) + 3 * len(pairs), 'distinct_nontrivial': n_inter + n_ord, 'traces_validated_against_impl': len(multi) + len(cases),
                          'interleaved_instances_compared': n_inter, 'histories_in_two_orders': n_ord, 'value_verdicts_in_three_orders': len(pairs),
                          'rule': 'histories of 2-3 live instances (same class with probability 1/2) randomly interleaved, each instance compared with its own history run alone; '
